@@ -563,3 +563,17 @@ func reflectKind(t types.Type) int {
 	}
 	return 0
 }
+
+// userMapType is map[string]any: the contents of a SharedStore (user-visible state).
+var userMapType = types.NewMap(types.Typ[types.String], types.NewInterfaceType(nil, nil))
+
+// canonName: a type name that is the same for `any` and `interface{}` and for aliases.
+func (w *World) canonName(t types.Type) string {
+	t = types.Unalias(t)
+	if it, ok := t.Underlying().(*types.Interface); ok && it.NumMethods() == 0 {
+		if _, named := t.(*types.Named); !named {
+			return "any"
+		}
+	}
+	return w.typeStr(t)
+}
